@@ -64,7 +64,7 @@ func runC18(c *core.Ctx) {
 			continue
 		}
 		for _, s := range callsIn(f, cmN+"ValidatorTopicID") {
-			arg := c.E.Analyze(s.Fn).D.D(s.Instr.Common().Args[0]).String()
+			arg := s.Arg(c, 0).String()
 			c.Decide(ens.Glob("ssv-spec/types.MessageID.GetPubKey(*MsgID)", arg), "C18-R1", short(fnSpec)+"|topic of the message's own validator key", c.P.Pos(s.Instr.Pos()), clip(arg), "the topic is not derived from the message id's public key: "+clip(arg))
 		}
 	}
